@@ -33,7 +33,11 @@ func H_C17() {
 		if len(b.Errs) > 0 {
 			msg = b.Errs[0].Msg
 		}
-		Fail("C17:formatted-source-parses", c17Family(ref.Root)+": "+msg)
+		fam := c17Family(ref.Root)
+		if fam != htmlFamily {
+			fam += ": " + coarseMsg(msg)
+		}
+		Fail("C17:formatted-source-parses", fam)
 		return
 	}
 	eq, diff := TreeEq(b.Root, ref.Root, 0)
@@ -65,6 +69,25 @@ func H_C17() {
 	Cover("formatted")
 }
 
+// coarseMsg: class of an error message (the text itself may contain source bytes).
+func coarseMsg(m string) string {
+	if IsSymbolic(m) {
+		if len(m) >= 12 && !IsSymbolic(m[:12]) && m[:12] == "syntax error" {
+			return "syntax error"
+		}
+		return "error"
+	}
+	if pfx(m, "syntax error") {
+		return "syntax error"
+	}
+	if pfx(m, "WARNING") {
+		return "lexer warning"
+	}
+	return "error"
+}
+
+func pfx(s, p string) bool { return len(s) >= len(p) && s[:len(p)] == p }
+
 // shortDiff keeps the last path segment of a tree difference: "…/Kind.Slot:what".
 func shortDiff(d string) string {
 	colon := len(d)
@@ -82,6 +105,8 @@ func shortDiff(d string) string {
 	}
 	return d[start:]
 }
+
+const htmlFamily = "program with inline HTML or a close tag"
 
 // c17Family: coarse class of the program for "does not parse" signatures: the three
 // constructs the formatter is known to mishandle, else the first statement's kinds.
@@ -107,7 +132,7 @@ func c17Family(root ast.Vertex) string {
 	})
 	switch {
 	case html:
-		return "program with inline HTML or a close tag"
+		return htmlFamily
 	case dollarCurly:
 		return "string with a ${ } part"
 	case heredoc:
